@@ -6,7 +6,7 @@ RULE = ("every signature the implementation returns (raw and API entry points, d
         "RNG, contexts, pre-hash) is decoded by the model with the known secret key and the five conditions are evaluated: "
         "canonical hints, ||z|| < gamma1-beta, <= omega hints, ||LowBits(Ay - c s2)|| < gamma2-beta, ||c t0|| < gamma2, "
         "c~ = H(mu || w1Encode(HighBits(Ay))) with y = z - c s1. The judge itself is checked on signatures that a signer skipping "
-        "one test would emit (forged by the model: must FAIL the judge). distinct_nontrivial = distinct analysed signatures.")
+        "one test would emit (forged by the model: must FAIL the judge). distinct_nontrivial = distinct analysed signatures. Volume: scan::judgemany re-derives 48 000 / 480 000 signatures per set and build with the secret key (harness/src/judge.rs).")
 EXPLANATION = ("Props/C06.lean: an emitted signature is the packing of an iteration in which none of the four tests fired, applied to "
                "the quantities the specification names. The identification of those quantities with y = z - c s1 etc. (ring algebra) is "
                "not a theorem yet: partial; the judge evaluates them numerically for every emitted signature.")
